@@ -51,7 +51,122 @@ def make_case_seeded(arg):
     return make_case(random.Random(seed), tier, k)
 
 
+N_REGULAR = dict(quick=200, thorough=1400)
+N_BIG = dict(quick=44, thorough=240)
+CURVED = ["sphere", "ellipsoid", "capsule", "cylinder", "cone"]
+
+
+def small_rotation(rng, angle):
+    ax = nw.rand_unit(rng)
+    K = np.array([[0.0, -ax[2], ax[1]], [ax[2], 0.0, -ax[0]], [-ax[1], ax[0], 0.0]])
+    return np.eye(3) + np.sin(angle) * K + (1.0 - np.cos(angle)) * (K @ K)
+
+
+def big_collider(rng, kind):
+    """a collider from the upper decades of the declared size domain: radii / vertex radii 15 .. 50, box edges, heights
+    and lengths 30 .. 100; hulls and meshes with 12 .. 30 vertices on a sphere, an ellipsoid or on 2-3 rings (drum)"""
+    R = nw.rand_rotation(rng, "random")
+    c = [rng.uniform(-20, 20) for _ in range(3)]
+    rad = lambda: rng.uniform(15.0, 50.0)
+    ln = lambda: rng.uniform(30.0, 100.0)
+    if kind == "sphere":
+        return dict(kind=kind, center=c, radius=rad())
+    if kind == "ellipsoid":
+        return dict(kind=kind, pose=nw.pose_of(R, c), radii=[rad(), rad(), rad()])
+    if kind == "capsule":
+        return dict(kind=kind, pose=nw.pose_of(R, c), radius=rad(), height=ln())
+    if kind == "cylinder":
+        return dict(kind=kind, pose=nw.pose_of(R, c), radius=rad(), length=ln())
+    if kind == "cone":
+        return dict(kind=kind, pose=nw.pose_of(R, c), radius=rad(), height=ln())
+    if kind == "box":
+        return dict(kind=kind, pose=nw.pose_of(R, c), size=[ln(), ln(), ln()])
+    n = rng.choice([12, 16, 20, 24, 30])
+    s = rad()
+    shape = rng.choice(["sphere", "ellipsoid", "rings"])
+    pts = []
+    if shape == "rings":
+        k = rng.choice([2, 3])
+        m = max(4, n // k)
+        h = rng.uniform(0.4, 1.0) * s
+        for j in range(k):
+            z = -h + 2 * h * j / (k - 1)
+            rr = s * (1.0 if k == 2 or j != 1 else rng.uniform(1.0, 1.1))
+            ph = rng.uniform(0, 2 * np.pi)
+            for i in range(m):
+                pts.append([rr * np.cos(ph + 2 * np.pi * i / m), rr * np.sin(ph + 2 * np.pi * i / m), z])
+    else:
+        sc = [1.0, 1.0, 1.0] if shape == "sphere" else [rng.uniform(0.5, 1.0) for _ in range(3)]
+        for _ in range(n):
+            v = np.array([rng.gauss(0, 1) for _ in range(3)])
+            v *= s / np.linalg.norm(v)
+            pts.append((v * sc).tolist())
+    pts = [[float(x) for x in p_] for p_ in pts]
+    if kind == "hull":
+        return dict(kind=kind, vertices=(np.array(pts) @ R.T + np.array(c)).tolist())
+    return dict(kind=kind, pose=nw.pose_of(R, c), vertices=pts)
+
+
+def gen_big(rng, tier):
+    """(s1, s2, meta): an overlapping pair of BIG colliders (feature sizes 15 .. 100) penetrating deeply in ABSOLUTE units
+    (1 .. 50 length units), so that a relative slack in any of EPA's absolute tests exceeds tau = 1e-6 L.  Sub-streams:
+    curved (two curved colliders: the expanding polytope gets ever smaller, nearly coplanar faces), mixed (curved x
+    polytope), manyvert (hulls / meshes with 12 .. 30 vertices, boxes), nearly_aligned (a polytope against a slightly
+    smaller copy of itself turned by 1e-6 .. 3e-4 rad -- or with every vertex moved by that relative amount -- and placed
+    inside it: the vertices of A - B come in nearly, not exactly, coplanar families)"""
+    for _ in range(200):
+        sub = rng.choice(["curved"] * 3 + ["mixed"] * 3 + ["nearly_aligned"] * 3 + ["manyvert"])
+        if sub == "curved":
+            k1, k2 = rng.choice(CURVED), rng.choice(CURVED)
+        elif sub == "mixed":
+            k1, k2 = rng.choice(CURVED), rng.choice(KINDS_POLY)
+            if rng.random() < 0.5:
+                k1, k2 = k2, k1
+        elif sub == "nearly_aligned":
+            k1 = k2 = rng.choice(["hull", "hull", "box", "box", "mesh"])
+        else:
+            k1, k2 = rng.choice(KINDS_POLY), rng.choice(KINDS_POLY)
+        s1 = big_collider(rng, k1)
+        u = nw.rand_unit(rng)
+        if sub == "nearly_aligned":
+            ang = 10 ** rng.uniform(-6.0, -3.5)
+            c1 = nw.center_of(s1)
+            s2 = nw.transform_spec(nw.translate_spec(s1, -c1), small_rotation(rng, ang), np.zeros(3), scale=rng.uniform(0.8, 1.0))
+            if s1["kind"] == "box":
+                s2["size"] = [x * rng.uniform(0.9, 1.0) for x in s2["size"]]
+            elif rng.random() < 0.5:
+                V = np.array(s2["vertices"])
+                V = V * (1.0 + ang * np.array([[rng.uniform(-1, 1) for _ in range(3)] for _ in V]))
+                s2["vertices"] = V.tolist()
+            off = np.array([rng.uniform(-1, 1) for _ in range(3)]) * 0.03 * nw.feature_size(s1)
+            s2 = nw.translate_spec(s2, c1 + off)
+            meta = dict(stream="big", sub=sub, kinds=[k1, k2], angle=ang, dir=u.tolist())
+        else:
+            s2 = big_collider(rng, k2)
+            f = min(nw.feature_size(s1), nw.feature_size(s2))
+            # overlap extent along u: 1 .. 50 length units, mostly a sizeable fraction of the smaller collider
+            delta = min(50.0, rng.uniform(0.2, 1.0) * f) if rng.random() < 0.6 else rng.uniform(1.0, 50.0)
+            dc = nw.center_of(s1) - nw.center_of(s2)
+            lat = dc - float(dc @ u) * u
+            jit = np.array([rng.uniform(-1, 1) for _ in range(3)]) * 0.2 * f
+            lat = lat + jit - float(jit @ u) * u
+            s2 = nw.translate_spec(s2, lat)
+            s = nw.support_value(s1, u) + nw.support_value(s2, -u) - delta
+            s2 = nw.translate_spec(s2, s * u)
+            meta = dict(stream="big", sub=sub, kinds=[k1, k2], delta=delta, dir=u.tolist())
+        meta["L"] = nw.scene_scale([s1, s2])
+        a, b, dist = npn.closest_pair(s1, s2)
+        if dist <= 1e-9 * meta["L"]:
+            return s1, s2, meta
+    raise RuntimeError("could not generate an overlapping pair")
+
+
 def make_case(rng, tier, k):
+    if k >= N_REGULAR.get(tier, 200):
+        s1, s2, meta = gen_big(rng, tier)
+        flip = bool(k % 2)
+        meta.update(flip=flip, tier=tier, polytopes=bool(npn.is_polytope(s1) and npn.is_polytope(s2)))
+        return dict(c1=s1, c2=s2, ops=[dict(fn="epa", flip=flip)], meta=meta)
     smooth = rng.random() < 0.12
     kinds = nw.KINDS if smooth else KINDS_POLY
     s1, s2, meta = npn.gen_overlapping(rng, tier, kinds, margin_prob=0.1 if smooth else 0.0)
@@ -296,7 +411,9 @@ def run(tier, seed, replay=None):
     R.cov["rule"] = ("case = overlapping ordered pair of colliders (88% box/hull/mesh without margin, 12% all kinds) + simplex winding "
                      "(as returned / rows 1,2 swapped); streams: depth (B placed along a direction so that the overlap extent along it "
                      "is delta in {1e-6..1} * size), lattice (axis permutations, 45 deg, sizes and offsets from {1/4..4}: exact coincidences), "
-                     "deep (nearby centres), nested (small inside large); overlap pre-checked by the harness' own float GJK; "
+                     "deep (nearby centres), nested (small inside large), big (18% of the cases: feature sizes 15 .. 100, penetration 1 .. 50 in "
+                     "absolute units; curved x curved, curved x polytope, 12-30-vertex polytopes, a polytope against a slightly smaller copy of "
+                     "itself turned by 1e-6 .. 3e-4 rad = nearly coplanar vertex families of A - B); overlap pre-checked by the harness' own float GJK; "
                      "distinct by canonical hash; non-trivial = gjk reported d == 0, epa returned success=True and the certificates were evaluated")
     R.assumptions += [
         "the verdict per input is a Coq theorem (Props/C07.v) applied to the implementation's output; universality over inputs comes from generation",
@@ -317,7 +434,7 @@ def run(tier, seed, replay=None):
         if corpus.exists():
             for f in sorted(corpus.glob("*.json")):
                 cases.append(json.loads(f.read_text())["case"])
-        n = 200 if tier == "quick" else 1400
+        n = N_REGULAR.get(tier, 200) + N_BIG.get(tier, 44)      # cases with k >= N_REGULAR[tier] come from the `big` stream
         seeds = [(R.rng.getrandbits(64), tier, k) for k in range(n)]
         cases += npn.par_map(PID, "c07", "make_case_seeded", seeds, tag="gen")
     for c in cases:
@@ -359,7 +476,7 @@ def run(tier, seed, replay=None):
             to_judge.append((COMP + i, cases[i], rcm))
     for i, (c, r) in enumerate(zip(cases, results)):
         meta = c.get("meta", {})
-        bump(hist, meta.get("stream", "corpus"))
+        bump(hist, meta.get("stream", "corpus") + ("/" + meta["sub"] if meta.get("sub") else ""))
         for k, v in r.get("arms", {}).items():
             bump(arms, k, v)
         poly = npn.is_polytope(c["c1"]) and npn.is_polytope(c["c2"])
